@@ -62,6 +62,8 @@ type Environment interface {
 }
 
 type Network struct {
+	// Ifaces: the host's interface table as net.Interfaces reports it (nil: DefaultIfaces)
+	Ifaces []Interface
 	// SendFails, when set, lets the environment make a send fail locally (ENETUNREACH, ENOBUFS ...):
 	// nothing leaves the host.
 	SendFails func(p Packet) error
